@@ -319,7 +319,7 @@ def tableDepth (fs : List QFeature) : Nat := fs.foldl (fun d f => max d (5 + f.k
 def featureText (reg : Registry) (depth : Nat) (f : QFeature) : Out Bytes :=
   if !propsOk f.props then .error .panic
   else
-    .ok (sp 5 ++ f.key ++ sp (depth - 5 - f.key.length) ++ bs f.loc.print ++
+    .ok (sp 5 ++ f.key ++ sp (depth - 5 - f.key.length) ++ f.loc.printB ++
       ((propsItems f.props).flatMap fun kv => 10 :: qualifierFmt reg (sp depth) kv.1 kv.2))
 
 def tableTextD (reg : Registry) (depth : Nat) : List QFeature → Out Bytes
